@@ -28,7 +28,8 @@ EXTENDS Cache
 
 CONSTANTS Threads,          \* handler threads
           Files,            \* file names (strings)
-          FileOf,           \* [Keys -> Files \cup {"-"}]   "-" : the target resolves to no file
+          FileOf,           \* [Keys -> Files \cup {"-", "/"}]   "-": the target resolves to nothing (404),
+                            \*                                     "/": to a directory named without the slash (301)
           RewriteInFlight,  \* BOOLEAN: may files change while a request is in progress?
           MaxWrites         \* bound on the recorded history per file (model checking only)
 
@@ -77,8 +78,8 @@ CacheCheckStep(th, now) ==
 ReadFileStep(th) ==
   /\ pc[th] = "read"
   /\ LET f == FileOf[<<rq[th].route, rq[th].host>>]
-     IN  IF f = "-"
-         THEN /\ resp' = [resp EXCEPT ![th] = Resp(404, NoPayload, FALSE)]
+     IN  IF f \in {"-", "/"}
+         THEN /\ resp' = [resp EXCEPT ![th] = Resp(IF f = "/" THEN 301 ELSE 404, NoPayload, FALSE)]
               /\ pc' = [pc EXCEPT ![th] = "done"]
               /\ UNCHANGED rq
          ELSE /\ rq' = [rq EXCEPT ![th].body = files[f]]
@@ -168,7 +169,7 @@ Inv_Fresh ==
 Inv_CachedWasFile ==
   \A i \in 1..Len(entries) :
     LET f == FileOf[<<entries[i].route, entries[i].host>>]
-    IN  f # "-" /\ \E j \in 1..Len(fhist[f]) :
+    IN  f \notin {"-", "/"} /\ \E j \in 1..Len(fhist[f]) :
            /\ fhist[f][j].p.size = entries[i].size /\ fhist[f][j].p.id = entries[i].id
            /\ fhist[f][j].p.mime = entries[i].mime
 
